@@ -485,3 +485,63 @@ func VerifC13_columns() {
 		}
 	}
 }
+
+// VerifC13_many: several table-level cell callbacks of one time together with cell callbacks on two
+// columns: every callback still fires once per matching cell, column callbacks on their own column.
+func VerifC13_many() {
+	var log []vfEv
+	t := New()
+	t.AddHeaders("h1", "h2", "h3")
+	t.AddRowItems("a", "b", "c")
+	t.AddRowItems("d", "e")
+	when := callbackTime(1 + 2*vfChoice("when", 2)) // pre-cell or post-cell
+	nTable := 1 + vfChoice("ntable", 7)
+	var tcb []*vfRecCB
+	for i := 0; i < nTable; i++ {
+		cb := &vfRecCB{id: 10 + i, log: &log, key: &vfKeyT13{40 + i}}
+		tcb = append(tcb, cb)
+		vfAssert(t.RegisterPropertyCallback(t, when, CB_ON_CELL, cb) == nil, "register-ok")
+	}
+	c1 := &vfRecCB{id: 1, log: &log, key: &vfKeyT13{61}}
+	c2 := &vfRecCB{id: 2, log: &log, key: &vfKeyT13{62}}
+	c3 := &vfRecCB{id: 3, log: &log, key: &vfKeyT13{63}}
+	vfAssert(t.RegisterPropertyCallback(t.Column(1), when, CB_ON_CELL, c1) == nil, "register-ok")
+	vfAssert(t.RegisterPropertyCallback(t.Column(2), when, CB_ON_CELL, c2) == nil, "register-ok")
+	vfAssert(t.RegisterPropertyCallback(t.Column(3), when, CB_ON_CELL, c3) == nil, "register-ok")
+	t.InvokeRenderCallbacks()
+	var want []vfEv
+	for _, row := range t.AllRows() {
+		for j := range row.cells {
+			cell := &row.cells[j]
+			colcb := []*vfRecCB{c1, c2, c3}[j]
+			if when == CB_AT_RENDER_PRECELL {
+				for _, cb := range tcb {
+					want = append(want, vfEv{cb.id, cell})
+				}
+				want = append(want, vfEv{colcb.id, cell})
+			} else {
+				want = append(want, vfEv{colcb.id, cell})
+				for _, cb := range tcb {
+					want = append(want, vfEv{cb.id, cell})
+				}
+			}
+		}
+	}
+	// header cells: table-level callbacks only (they are in no column)
+	var body []vfEv
+	for _, e := range log {
+		c := e.po.(*Cell)
+		if c.Location().Row != 0 {
+			body = append(body, e)
+		} else {
+			vfAssert(e.id >= 10, "header-cells-get-table-callbacks-only")
+		}
+	}
+	vfAssert(len(body) == len(want), "many-each-callback-once-per-target")
+	if len(body) == len(want) {
+		for i := range body {
+			vfAssert(body[i].id == want[i].id, "many-documented-order")
+			vfAssert(body[i].po == want[i].po, "many-live-object")
+		}
+	}
+}
